@@ -326,7 +326,7 @@ def c18(prop, tier, replay):
         nontrivial_tags=["several_terminals"], exhaustive=(tier != "quick"))
 
 
-PAR_FLAGS = {"lr", "ut", "ntt", "tt", "cm", "auto", "um", "modes", "um2", "skip", "clipn", "memn", "utn", "clipt", "memt", "utt", "la"}
+PAR_FLAGS = {"lr", "ut", "ntt", "tt", "cm", "auto", "um", "modes", "um2", "skip", "clipn", "memn", "utn", "clipt", "memt", "utt", "la", "lac", "lam", "lau"}
 
 
 def c25(prop, tier, replay):
